@@ -478,6 +478,66 @@ def build():
 BUDGET = 5      # at most this many events in a scenario (2 initial + posted ones), fan-out <= 2 per dispatch
 
 
+def parse_set(pid="C01p"):
+    """'name.N' registers for event 'name' with additional priority N (any integer int() accepts - negative ones too:
+    'after the default handlers'); 'name{cond}' / 'name.N{cond}' carry a condition.  The parser is the ONLY place where
+    the priority suffix is given its meaning; add_handler (main set) assumes exactly this result shape."""
+    from pyvc import regex
+    C = ContractSet(pid, "event string parsing: name, condition, additional priority")
+    C.replay_pid = "C01"
+    C.strings = True
+    regex.install(C)
+    C.cls("MpfController", fields={})
+    C.cls("Cond", fields=dict(text=Str))
+
+    def build_bool(I, env, args, kwargs):
+        o = I.fresh(ObjS("Cond"), I.fresh_name("cond"))
+        I.ctx.assume(I.eq(I.read_field(I.force(o).ref, "text"), args[0]))
+        return o
+    C.cls("PlaceholderManager", fields={})
+    C.ext("PlaceholderManager.build_bool_template", model=build_bool,
+          trusted_reason="template construction (C16): a condition object for that text")
+    C.cls("EventManager", file=EV, bases=["MpfController"],
+          fields=dict(machine=ObjS("MachineController", placeholder_manager=ObjS("PlaceholderManager"))), check_bases=False)
+    INT_RE = regex.to_z3(r"[ \t\n]*[+-]?[0-9]+(_[0-9]+)*[ \t\n]*")
+    OK = z3.Function("py_int_ok", z3.StringSort(), z3.BoolSort())
+    VAL = z3.Function("py_int", z3.StringSort(), z3.IntSort())
+    def _inst(I, t):
+        # instance of: int() accepts exactly optional blanks, a sign, digits (single underscores between them) (A-ASCII)
+        I.ctx.assume(OK(t) == z3.InRe(t, INT_RE))
+    C.helpers["int_ok"] = lambda I, s: (_inst(I, I.force(s).t), VBool(OK(I.force(s).t)))[1]
+    C.helpers["int_of"] = lambda I, s: (_inst(I, I.force(s).t), VInt(VAL(I.force(s).t)))[1]
+    PLAIN = "(not ' ' in %s and not '{' in %s)"
+    C.fn("EventManager.get_event_and_condition_from_string", params=dict(event_string=Str),
+         defs=[],
+         lets={"p": "event_string.find('.')", "b": "event_string.find('{')", "head": "event_string[0:event_string.find('{')]",
+               "q": "event_string[0:event_string.find('{')].find('.')"},
+         result=TupleS(Str, Opt(ObjS("Cond")), Int),
+         ensures=[("G1: a plain 'name.N' string is event 'name' (the text before the FIRST dot) with additional priority "
+                   "int(N) - every integer int() accepts, negative ones included; without a dot (or with a leading one) the "
+                   "string is the event name and the additional priority is 0; no condition",
+                   "implies(event_string[-1:] != '}', result[1] is None and "
+                   "(result[0] == event_string[:p] and result[2] == int_of(event_string[p + 1:]) if p > 0 else "
+                   "result[0] == event_string and result[2] == 0))"),
+                  ("G2: 'name{cond}' / 'name.N{cond}': the condition is the text between the FIRST '{' and the final '}', and "
+                   "the part before it is parsed like a plain string",
+                   "implies(event_string[-1:] == '}', result[1] is not None and result[1].text == event_string[b + 1:-1] and "
+                   "(result[0] == head[:q] and result[2] == int_of(head[q + 1:]) if q > 0 else "
+                   "result[0] == head and result[2] == 0))")],
+         raises={"ValueError": True},
+         ensures_exc=[("only malformed strings are rejected: a space or a stray '{' in the name, a '}' without '{', or a "
+                       "priority suffix that int() does not accept",
+                       "(event_string[-1:] == '}' and (b < 0 or ' ' in head or "
+                       "(q > 0 and not int_ok(head[q + 1:])))) or "
+                       "(event_string[-1:] != '}' and (' ' in event_string or '{' in event_string or "
+                       "(p > 0 and not int_ok(event_string[p + 1:]))))")],
+         modifies=[], allow_decorators=["lru_cache"],
+         replay_seeds={"event_string": ["a.-1", "ball_started.2", "ev{x>1}", "ev.3{x}", "a b", "a.x", "ev"]})
+    C.assume("A-INT: int(s) of a non-literal string is an uninterpreted pair (accepts?, value); the parser is required to "
+             "pass exactly the suffix to it")
+    return C
+
+
 def build_extra():
     C = ContractSet("C01b", "process_event_queue ordering (bounded posting trees)")
     C.namedtuple(EV, "PostedEvent")
@@ -599,4 +659,4 @@ def build_extra():
     # the switch controller is reached from inside event handlers (switch players, BCP, keyboard): recording a hold-time
     # deadline must never call handlers or drain the queue synchronously (C03's contract set, restricted)
     from . import C03
-    return [C, c13, c02, C03.timed_add_set("C01t")]
+    return [C, c13, c02, C03.timed_add_set("C01t"), parse_set()]
